@@ -65,6 +65,23 @@ instance (g : Graph E) : Decidable g.NamesDistinct := by unfold Graph.NamesDisti
     of the graph content) -/
 def CompSys.eqv (a b : CompSys E) : Bool := decide (a.t = b.t) && a.g.eqv b.g
 
+/-- `Statement.__eq__`: assignments structurally, compartmental systems by content -/
+def Stmt.SameContent : Stmt E → Stmt E → Prop
+  | .assign s e, .assign s' e' => s = s' ∧ e = e'
+  | .ode a, .ode b => a.eqv b = true ∧ a.g.NamesDistinct ∧ b.g.NamesDistinct
+  | _, _ => False
+
+/-- `Statements.__eq__`: same length, pairwise `==` -/
+inductive StmtsSame : List (Stmt E) → List (Stmt E) → Prop
+  | nil : StmtsSame [] []
+  | cons {a b : Stmt E} {as bs : List (Stmt E)} (h : a.SameContent b) (t : StmtsSame as bs) :
+      StmtsSame (a :: as) (b :: bs)
+
+/-- `Model.__eq__` (all components equal, statements pairwise `==`); name/description/path are not compared -/
+def Model.SameContent (m m' : Model E M) : Prop :=
+  StmtsSame m.statements m'.statements ∧
+  { m.blank with statements := [] } = { m'.blank with statements := [] }
+
 end
 
 /-! ### Concrete witnesses (expressions are their serialised text) -/
